@@ -9,6 +9,7 @@ from ..protocol.messages.json_rpc_message import (
 )
 from ..protocol.types.info import ServerInfo
 from ..protocol.types.capabilities import ServerCapabilities
+from ..protocol.types.versioning import CURRENT_VERSION, ProtocolVersion
 from .session.memory import SessionManager
 
 
@@ -85,7 +86,15 @@ class ProtocolHandler:
         """Handle initialize request."""
         params = getattr(message, "params", None) or {}
         client_info = params.get("clientInfo", {})
-        protocol_version = params.get("protocolVersion", "2025-03-26")
+        requested_version = params.get("protocolVersion", "2025-03-26")
+        # Acknowledge the requested version only if we support it; otherwise
+        # counter-propose our latest version (per MCP lifecycle).
+        if isinstance(requested_version, str) and ProtocolVersion.is_supported(
+            requested_version
+        ):
+            protocol_version = requested_version
+        else:
+            protocol_version = CURRENT_VERSION
 
         # Create session
         new_session_id = self.session_manager.create_session(
